@@ -77,6 +77,16 @@ def replay(model, fnd, prop):
     """Native confirmation through the public API: second upload of the same small file must transfer nothing new."""
     env = base_env()
     env["CARGO_TARGET_DIR"] = os.path.join(BUILD, "replay_target")
+    if "session shards" in fnd.site:
+        rc, out = sh(["cargo", "test", "--offline", "--test", "c11_reupload_small_shard_limit"], cwd=os.path.join(VERIF, "replay"), env=env, timeout=2400,
+                     log=os.path.join(LOGS, "replay_c11b.log"))
+        path = os.path.join(VERIF, "replay", "tests", "c11_reupload_small_shard_limit.rs")
+        if "test result: FAILED" in out:
+            m = re.search(r"C11 violated: [^\n]*", out)
+            return True, path, m.group(0)[:240] if m else "native replay fails"
+        if "test result: ok" in out:
+            return False, path, "native replay passes: staged shards are uploaded with a tiny shard size limit"
+        return None, path, "native replay inconclusive (rc=%s)" % rc
     rc, out = sh(["cargo", "test", "--offline", "--test", "c11_small_file_reupload"], cwd=os.path.join(VERIF, "replay"), env=env, timeout=2400,
                  log=os.path.join(LOGS, "replay_c11.log"))
     path = os.path.join(VERIF, "replay", "tests", "c11_small_file_reupload.rs")
